@@ -15,6 +15,14 @@ Lemma allowed_idle_pausing : allowed Idle Pausing = false. Proof. vm_compute. re
 Lemma allowed_pausing_pausing : allowed Pausing Pausing = false. Proof. vm_compute. reflexivity. Qed.
 Lemma allowed_paused_pausing : allowed Paused Pausing = false. Proof. vm_compute. reflexivity. Qed.
 
+Lemma allowed_running_suspending : allowed Running Suspending = true. Proof. vm_compute. reflexivity. Qed.
+Lemma allowed_suspending_running : allowed Suspending Running = true. Proof. vm_compute. reflexivity. Qed.
+Lemma allowed_suspending_idle : allowed Suspending Idle = true. Proof. vm_compute. reflexivity. Qed.
+Lemma allowed_suspending_pausing : allowed Suspending Pausing = false. Proof. vm_compute. reflexivity. Qed.
+Lemma allowed_to_suspending a : a <> Running -> allowed a Suspending = false.
+Proof. destruct a; intros H; try reflexivity; contradiction. Qed.
+Lemma start_suspender_cacheable sid a b : cacheable (CStartSuspender sid a b) = false. Proof. vm_compute. reflexivity. Qed.
+
 Lemma body_cacheable c : is_body c = true -> cacheable c = true.
 Proof. destruct c; cbn; intros H; try discriminate H; vm_compute; reflexivity. Qed.
 Lemma checkpoint_cacheable : cacheable CCheckpoint = true. Proof. vm_compute. reflexivity. Qed.
@@ -183,6 +191,15 @@ Proof.
 Qed.
 
 Definition in_class (m : msg) : bool := is_head (mcmd m) || bodym m.
+(* messages whose command is run by [exec_cmd] and answered *)
+Definition plain (m : msg) : bool := match mcmd m with CStartSuspender _ _ _ | CUnknown => false | _ => true end.
+Lemma in_class_plain m : in_class m = true -> plain m = true.
+Proof. unfold in_class, plain, bodym. destruct (mcmd m); cbn; intros H; try reflexivity; discriminate H. Qed.
+(* what the end of a task step needs from the command *)
+Definition keeps5 (s s' : st) : Prop :=
+  state s' = state s /\ permit s' = permit s /\ plans s' = plans s /\ resps s' = resps s /\ stashed s' = stashed s.
+Lemma keeps_keeps5 s s' : keeps s s' -> keeps5 s s'.
+Proof. intros (K1 & K2 & K3 & K4 & K5 & K6 & K7 & _). unfold keeps5. auto. Qed.
 
 (* ------------------------------------------------------------------ single interpreter steps *)
 Lemma d_after_yield (s : st) os v rest top tl m f' po :
@@ -213,7 +230,7 @@ Proof.
 Qed.
 
 Lemma d_process (s : st) os m s3 cr o3 :
-  in_class m = true -> exec_cmd (pre_exec s m) m = (s3, cr, o3) ->
+  plain m = true -> exec_cmd (pre_exec s m) m = (s3, cr, o3) ->
   dstep s (CProcess m) os =
   match cr with
   | Done r => inl (s3, CContinue true r, os ++ [OMsg m] ++ o3 ++ [OResp r])
@@ -221,7 +238,7 @@ Lemma d_process (s : st) os m s3 cr o3 :
   end.
 Proof.
   intros Hc He. unfold RE_Inv.dstep. cbv beta iota zeta. fold (pre_exec s m).
-  unfold in_class, bodym in Hc.
+  unfold plain in Hc.
   destruct (mcmd m) eqn:Ecmd; cbn in Hc; try discriminate Hc; rewrite He; destruct cr; reflexivity.
 Qed.
 
@@ -278,14 +295,14 @@ Lemma task_msg_done (s : st) v rest top tl m f' po s3 r o3 :
   pc s = PcSleep0 -> must_cancel s = false -> state s = Running -> permit s = true ->
   stashed s = None -> exc_slot s = None -> resps s = RVal v :: rest -> plans s = top :: tl ->
   List.length rest = List.length tl ->
-  frame_resume top (Send v) = (Yielded m f', po) -> in_class m = true ->
+  frame_resume top (Send v) = (Yielded m f', po) -> plain m = true ->
   exec_cmd (pre_exec (replace_top (set_resps (set_must_cancel s false) rest) f') m) m = (s3, Done r, o3) ->
-  keeps (replace_top (set_resps (set_must_cancel s false) rest) f') s3 ->
+  keeps5 (replace_top (set_resps (set_must_cancel s false) rest) f') s3 ->
   task_step s = (set_pc (set_resps s3 (r :: resps s3)) PcSleep0,
                  ((([] ++ po) ++ [OMsg m] ++ o3 ++ [OResp r]) ++ []) ++ [OTask WSleep0]).
 Proof.
   intros Hpc Hmc Hst Hpm Hsh Hex Hrs Hpl Hlen Hfr Hcl Hexe Hk.
-  destruct Hk as (K1 & K2 & K3 & K4 & K5 & K6 & K7 & K8 & K9 & K10 & K11 & K12 & K13). simp_st.
+  destruct Hk as (K1 & K4 & K5 & K6 & K7). simp_st.
   rewrite Hpl in K5. cbn [List.tl] in K5.
   eapply task_step_dterm with (n := 5); [unfold RE_Inv.tentry; cbv zeta; rewrite Hpc, Hmc; reflexivity | | lia].
   eapply dterm_step; [eapply d_after_yield; simp_st; eassumption|].
@@ -299,7 +316,7 @@ Qed.
 Lemma task_msg_susp (s : st) v rest top tl m f' po s3 k o3 :
   pc s = PcSleep0 -> must_cancel s = false -> stashed s = None -> exc_slot s = None ->
   resps s = RVal v :: rest -> plans s = top :: tl ->
-  frame_resume top (Send v) = (Yielded m f', po) -> in_class m = true ->
+  frame_resume top (Send v) = (Yielded m f', po) -> plain m = true ->
   exec_cmd (pre_exec (replace_top (set_resps (set_must_cancel s false) rest) f') m) m = (s3, Susp k, o3) ->
   task_step s = (set_pc s3 (PcCmd k), ([] ++ po) ++ [OMsg m] ++ o3 ++ [OTask WFuture]).
 Proof.
@@ -430,8 +447,17 @@ Qed.
 Definition res_ok (r : tres) : bool := match r with TReturn _ | TRaise ECancelled => true | _ => false end.
 
 
+Definition is_single (f : frame P) : bool := match f with FSingle _ _ => true | _ => false end.
+Lemma close_singles l : forallb is_single l = true -> flat_map (fun f => snd (frame_resume f Close)) l = [].
+Proof.
+  induction l as [|f l IH]; cbn [flat_map forallb]; [reflexivity|]. intros H. apply andb_true_iff in H. destruct H as [H1 H2].
+  destruct f; try discriminate H1. cbn. apply IH. exact H2.
+Qed.
+Lemma forallb_rev {A} (f : A -> bool) l : forallb f (rev l) = forallb f l.
+Proof. induction l as [|x l IH]; cbn; [reflexivity|]. rewrite forallb_app, IH. cbn. rewrite andb_true_r. apply andb_comm. Qed.
+
 Lemma finalize_done (s : st) r pend :
-  plans s = [] -> bundlers s = [] -> stashed s = None -> allowed (state s) Idle = true ->
+  forallb is_single (plans s) = true -> bundlers s = [] -> stashed s = None -> allowed (state s) Idle = true ->
   exists s' o,
     finalize s r pend = (s', o) /\
     pc s' = PcDone (match pend with Some e => TRaise e | None => r end) /\ state s' = Idle /\ main_err s' = main_err s /\
@@ -443,7 +469,8 @@ Proof.
   destruct (unstage_fold_ok (RE.staged P D s2) s2 [] eq_refl) as (s3 & o3 & E3 & S3 & Q3). rewrite E3.
   pose proof (dsame_trans _ _ _ S2 S3) as ((K1 & K2 & K3 & K4 & K5 & K6 & K7 & K8 & K9 & K10 & K11 & K12 & K13) & C1 & C2 & C3).
   simp_st. unfold RE.close_runs, RE.close_frames, RE.set_state. simp_st.
-  rewrite C2, Hbs, K5, Hpl, K7, Hsh, K1, Hal. cbn [flat_map rev app].
+  rewrite C2, Hbs, K5, K7, Hsh, K1, Hal. rewrite (close_singles (rev (plans s))) by (rewrite forallb_rev; exact Hpl).
+  cbn [flat_map app].
   do 2 eexists. split; [reflexivity|]. simp_st. split; [reflexivity|]. split; [reflexivity|]. split; [exact K13|].
   destruct (devonly_final_events _ Q2) as [F2 G2]. destruct (devonly_final_events _ Q3) as [F3 G3].
   rewrite !final_events_app, !stops_app, F2, F3, G2, G3. split; [reflexivity|]. split; [reflexivity|].
@@ -514,6 +541,110 @@ Proof.
     destruct (call_pausables_ok x MResume (or_intror eq_refl)) as (s5 & o5 & E5 & S5 & Q5) end.
   rewrite E5. exists s5, o5. split; [reflexivity|]. split; [|exact Q5].
   destruct (Nat.eqb (List.length l) 0); exact S5.
+Qed.
+
+
+(* ------------------------------------------------------------------ suspension *)
+Definition smsg (sid : nat) : msg := RE.mk (CStartSuspender sid false false).
+Definition mkhelper (ph : hphase P) (sid : nat) (was : bool) (rw : list msg) : helper P :=
+  {| hph := ph; hsid := sid; hpre := None; hpost := None; hwas := was; hrw := rw |}.
+
+(* the state after `_start_suspender`: interruptions recorded, devices stopped and paused, rewound *)
+Lemma exec_start_suspender_ok (s : st) sid l :
+  nobintr (bundlers s) = true -> cache s = Some l ->
+  exists s3 o,
+    RE.exec_start_suspender P plan_of D dev s sid false false =
+    (RE.push_frame P D (if Nat.eqb (List.length l) 0 then RE.set_cache P D s3 (Some [])
+                        else RE.map_bundlers P D b_rewind (RE.set_cache P D s3 (Some [])))
+                   (FHelper (mkhelper H0 sid (rewindable s) l)), Done (RVal VNone), [] ++ o) /\
+    dsame s s3 /\ forallb devonly o = true.
+Proof.
+  intros Hnb Hc. unfold RE.exec_start_suspender, RE.record_interruptions. rewrite (record_intr_list_nobintr _ Hnb). cbn [negb].
+  destruct (stop_movables_ok (RE.set_bundlers P D s (bundlers s))) as (s2 & o2 & E2 & S2 & Q2). rewrite E2.
+  destruct (call_pausables_ok s2 MPause (or_introl eq_refl)) as (s3 & o3 & E3 & S3 & Q3). rewrite E3.
+  assert (S : dsame s s3).
+  { eapply dsame_trans; [|exact S3]. eapply dsame_trans; [|exact S2]. dsame_tac. }
+  pose proof S as ((K1 & K2 & K3 & K4 & K5 & K6 & K7 & K8 & K9 & K10 & K11 & K12 & K13) & C1 & C2 & C3).
+  rewrite C1, Hc. unfold RE.rewind. rewrite C1, Hc.
+  exists s3, (o2 ++ o3). split; [|split; [exact S | rewrite forallb_app, Q2, Q3; reflexivity]].
+  unfold mkhelper. destruct (Nat.eqb (List.length l) 0); simp_st; rewrite K11; reflexivity.
+Qed.
+
+Lemma d_process_start (s : st) os sid s3 r o3 :
+  RE.exec_start_suspender P plan_of D dev (pre_exec s (smsg sid)) sid false false = (s3, Done r, o3) ->
+  dstep s (CProcess (smsg sid)) os = inl (s3, CContinue true r, os ++ [OMsg (smsg sid)] ++ o3 ++ [OResp r]).
+Proof.
+  intros He. unfold RE_Inv.dstep. cbv beta iota zeta. fold (pre_exec s (smsg sid)). cbn [mcmd smsg RE.mk]. cbn [mcmd smsg RE.mk] in He.
+  rewrite He. reflexivity.
+Qed.
+
+Lemma pre_exec_smsg (s : st) sid : pre_exec s (smsg sid) = s.
+Proof.
+  unfold pre_exec. cbn [mobj smsg RE.mk mcmd]. rewrite start_suspender_cacheable, andb_false_r. destruct (cache s); reflexivity.
+Qed.
+
+(* the `_start_suspender` message is yielded by its single-message plan and processed *)
+Lemma task_start_suspender (s : st) rest tl sid l :
+  pc s = PcSleep0 -> must_cancel s = false -> state s = Running -> permit s = true ->
+  stashed s = None -> exc_slot s = None -> resps s = RVal VNone :: rest -> plans s = FSingle (smsg sid) false :: tl ->
+  List.length rest = List.length tl -> nobintr (bundlers s) = true -> cache s = Some l ->
+  exists s3 o,
+    let sA := replace_top (set_resps (set_must_cancel s false) rest) (FSingle (smsg sid) true) in
+    let s4 := RE.push_frame P D (if Nat.eqb (List.length l) 0 then RE.set_cache P D s3 (Some [])
+                                 else RE.map_bundlers P D b_rewind (RE.set_cache P D s3 (Some [])))
+                            (FHelper (mkhelper H0 sid (rewindable s) l)) in
+    task_step s = (set_pc (set_resps s4 (RVal VNone :: resps s4)) PcSleep0,
+                   ((([] ++ []) ++ [OMsg (smsg sid)] ++ ([] ++ o) ++ [OResp (RVal VNone)]) ++ []) ++ [OTask WSleep0]) /\
+    dsame sA s3 /\ forallb devonly o = true.
+Proof.
+  intros Hpc Hmc Hst Hpm Hsh Hex Hrs Hpl Hlen Hnb Hc.
+  set (sA := replace_top (set_resps (set_must_cancel s false) rest) (FSingle (smsg sid) true)).
+  destruct (exec_start_suspender_ok sA sid l) as (s3 & o & E & S & Q); [subst sA; simp_st; exact Hnb | subst sA; simp_st; exact Hc |].
+  exists s3, o. cbv zeta. split; [|split; [exact S | exact Q]].
+  pose proof S as ((K1 & K2 & K3 & K4 & K5 & K6 & K7 & K8 & K9 & K10 & K11 & K12 & K13) & C1 & C2 & C3).
+  subst sA. simp_st. rewrite Hpl in K5. cbn [List.tl] in K5.
+  eapply task_step_dterm with (n := 5); [unfold RE_Inv.tentry; cbv zeta; rewrite Hpc, Hmc; reflexivity | | lia].
+  eapply dterm_step; [eapply d_after_yield with (m := smsg sid) (f' := FSingle (smsg sid) true) (po := []); simp_st; try eassumption; reflexivity|].
+  eapply dterm_step; [apply d_process_start; rewrite pre_exec_smsg; exact E|].
+  eapply dterm_step; [apply d_continue|]. cbv iota.
+  eapply dterm_step; [apply d_top_running; destruct (Nat.eqb (List.length l) 0); simp_st; congruence|].
+  eapply dterm_stop. apply d_body; destruct (Nat.eqb (List.length l) 0); simp_st; try congruence;
+    rewrite K5, K6; cbn [List.length]; rewrite Hlen; reflexivity.
+Qed.
+
+(* a cancelled task whose engine is "suspending" goes back to running: the suspender plan is on top of the stack *)
+Lemma d_cancelled_suspending (s : st) os popped : state s = Suspending ->
+  dstep s (CCancelled popped) os = inl (s, CContinue popped (RVal VNone), os).
+Proof. intros H. unfold RE_Inv.dstep. cbv beta iota zeta. rewrite H. reflexivity. Qed.
+
+Lemma d_top_suspending (s : st) os l :
+  state s = Suspending -> cache s = Some l -> permit s = true ->
+  dstep s CTop os = inl (set_state_raw s Running, CBody, os ++ [OState Suspending Running]).
+Proof.
+  intros H1 H2 H3. unfold RE_Inv.dstep. cbv beta iota zeta. unfold RE.resumable, RE.set_state. rewrite H1, H2. ev_st.
+  rewrite allowed_suspending_running. simp_st. rewrite H3. cbn [negb]. reflexivity.
+Qed.
+
+Lemma task_susp_cancel (s : st) l :
+  must_cancel s = true -> state s = Suspending -> cache s = Some l -> permit s = true -> stashed s = None ->
+  (pc s = PcSleep0 /\ List.length (resps s) = List.length (plans s) \/
+   exists k, pc s = PcCmd k /\ S (List.length (resps s)) = List.length (plans s)) ->
+  let s0 := set_must_cancel s false in
+  let s1 := match pc s with PcCmd _ => set_resps s0 (RVal VNone :: resps s0) | _ => s0 end in
+  task_step s = (set_pc (set_state_raw s1 Running) PcSleep0, ([] ++ [OState Suspending Running]) ++ [OTask WSleep0]).
+Proof.
+  intros Hmc Hst Hc Hpm Hsh Hcase. cbv zeta.
+  destruct Hcase as [(Hpc & Hlen) | (k & Hpc & Hlen)]; rewrite Hpc.
+  - eapply task_step_dterm with (n := 4); [unfold RE_Inv.tentry; cbv zeta; rewrite Hpc, Hmc; reflexivity | | lia].
+    eapply dterm_step; [apply d_cancelled_suspending; simp_st; exact Hst|].
+    eapply dterm_step; [apply d_continue|]. cbv iota.
+    eapply dterm_step; [eapply d_top_suspending with (l := l); simp_st; assumption|].
+    eapply dterm_stop. apply d_body; simp_st; assumption.
+  - eapply task_step_dterm with (n := 4); [unfold RE_Inv.tentry; cbv zeta; rewrite Hpc, Hmc; reflexivity | | lia].
+    eapply dterm_step; [apply d_cancelled_suspending; simp_st; exact Hst|].
+    eapply dterm_step; [apply d_continue|]. cbv iota.
+    eapply dterm_step; [eapply d_top_suspending with (l := l); simp_st; assumption|].
+    eapply dterm_stop. apply d_body; simp_st; [cbn [List.length]; rewrite Hlen; reflexivity | assumption].
 Qed.
 
 End C.
